@@ -12,7 +12,9 @@ EXTRACT = "coq/C05/Extract_C05.v"
 DRIVER = "props/C05/driver.ml"
 PROGS = {"c05sim": ["props/C05/unit.cpp"]}
 KB = 0.001987191
-NCOMP = {0: 1, 1: 3, 2: 3}
+NCOMP = {0: 1, 1: 3, 2: 3, 3: 4}
+NATOMS = {0: 1, 1: 2, 2: 2, 3: 4}
+QREF = [(1.0, 0.0, 0.0), (0.0, 1.0, 0.0), (0.0, 0.0, 1.0), (-1.0, -1.0, -1.0)]
 
 
 def ffloor(q):
@@ -20,7 +22,11 @@ def ffloor(q):
 
 
 def close(a, b, tol=1e-9):
-    return a == b or abs(a - b) <= tol * max(1.0, abs(a), abs(b))
+    if a == b:
+        return True
+    if a != a or b != b or abs(a) == float("inf") or abs(b) == float("inf"):
+        return False
+    return abs(a - b) <= tol * max(1.0, abs(a), abs(b))
 
 
 def wrap_exact(x, c, P):
@@ -39,7 +45,7 @@ def gen_scn(r, k, forced=None):
     for d in range(nd):
         v = {"kind": 0}
         if not use_grids and r.random() < f.get("p_vector", 0.5):
-            v["kind"] = r.choice([1, 2])
+            v["kind"] = r.choice([1, 2, 3])
         v["w"] = r.choice([1.0, 0.5, 0.25, 2.0])
         v["nx"] = r.randint(3, 6) if nd == 3 else r.randint(4, 12)
         v["periodic"] = v["kind"] == 0 and f.get("periodic", r.random() < 0.3)
@@ -81,6 +87,14 @@ def gen_scn(r, k, forced=None):
          "W": r.choice([0.125, 0.5, 1.0]), "freq": f.get("freq", r.choice([1, 1, 2, 2, 3, 4])),
          "keep": r.random() < 0.5, "wt": f.get("wt", r.random() < 0.4), "bt": r.choice([300.0, 1000.0, 3000.0]),
          "stepzero": r.random() < 0.25}
+    c["eb"] = None
+    if use_grids and not any(v["expand"] for v in vars_) and r.random() < f.get("p_eb", 0.2):
+        nt = 1
+        for v in vars_:
+            nt *= v["nx"]
+        c["eb"] = {"raw": [r.choice([0.0, 0.5, 1.0, 1.0, 2.0, 4.0, 8.0]) for _ in range(nt)], "equil": r.choice([0, 0, 3, 6, 20])}
+        if not any(c["eb"]["raw"]):
+            c["eb"]["raw"][0] = 1.0
     c["gfreq_explicit"] = use_grids and f.get("gfreq_explicit", r.random() < 0.4)
     c["gfreq"] = f.get("gfreq", r.choice([1, 2, 3, 4, 6])) if c["gfreq_explicit"] else c["freq"]
     c["it0"] = r.randint(0, 9) if r.random() < 0.3 else 0
@@ -88,13 +102,38 @@ def gen_scn(r, k, forced=None):
     p_out = f.get("p_out", r.choice([0.0, 0.1, 0.25]))
     p_save = f.get("p_save", r.choice([0.0, 0.0, 0.08]))
     p_restart = f.get("p_restart", r.choice([0.0, 0.0, 0.06]))
-    can_rebin = use_grids and c["keep"] and not any(v["expand"] for v in vars_)
+    can_rebin = use_grids and c["keep"] and not any(v["expand"] for v in vars_) and not c["eb"]
+    can_rebin_grids = use_grids and not c["keep"] and not c["eb"]
+    rebin_on = False
     events = []
     prev = None
     cur = [dict(lower=v["lower"], upper=v["upper"], nx=v["nx"]) for v in vars_]   # current boundaries of the configuration
     for s in range(nsteps):
         if s > 0 and r.random() < p_restart:
-            if can_rebin and r.random() < 0.5:
+            m = r.random()
+            if m < 0.25 and not rebin_on:
+                # (an instance configured with rebinGrids rebins again, onto its configured boundaries, at every state it
+                # reads: a reload there is a second rebinning, not modelled)
+                events.append(("reload",))
+            elif can_rebin_grids and m < 0.6:
+                # rebinning from the grids of the state (no keepHills): the current grids extended by whole bins where
+                # expandBoundaries allows (40 bins: beyond any expansion these histories can reach)
+                g = []
+                for v, b in zip(vars_, cur):
+                    lo, up = b["lower"], b["upper"]
+                    if v["expand"]:
+                        lo, up = v["lower"], v["upper"]
+                        if not v["hlo"]:
+                            lo -= 40 * v["w"]
+                        if not v["hup"]:
+                            up += 40 * v["w"]
+                    nx = int(round((up - lo) / v["w"]))
+                    b.update(lower=lo, upper=up, nx=nx)
+                    g.append((nx, lo, up))
+                events.append(("rebin", g))
+                rebin_on = True
+                can_rebin_grids = False      # once: a second extension would have to know the expansions since
+            elif can_rebin and r.random() < 0.5:
                 g = []
                 for v, b in zip(vars_, cur):
                     lo = b["lower"] + r.randint(-3, 3) * v["w"] / 2
@@ -106,11 +145,26 @@ def gen_scn(r, k, forced=None):
                     b.update(lower=lo, upper=lo + nx * v["w"], nx=nx)
                     g.append((nx, lo, lo + nx * v["w"]))
                 events.append(("rebin", g))
+                rebin_on = True
             else:
                 events.append(("restart",))
+                rebin_on = False
         zs = []
         for d, v0 in enumerate(vars_):
             v = dict(v0, **cur[d])
+            if v["kind"] == 3:
+                # positions of the four atoms of an orientation: the reference, rotated about a random axis by a
+                # dyadic-ish rotation, plus noise (the fit returns some unit quaternion)
+                if prev is not None and r.random() < 0.6:
+                    z = [p + r.randint(-2, 2) / 8.0 for p in prev[d]]
+                else:
+                    perm = r.choice([(0, 1, 2), (1, 2, 0), (2, 0, 1), (0, 2, 1), (1, 0, 2)])
+                    sg = [r.choice([-1.0, 1.0]) for _ in range(3)]
+                    z = []
+                    for a in QREF:
+                        z += [sg[k] * a[perm[k]] + r.randint(-2, 2) / 8.0 for k in range(3)]
+                zs.append(z)
+                continue
             if v["kind"] != 0:
                 # position of the second atom (the first one sits at the origin)
                 if prev is not None and r.random() < 0.6:
@@ -138,7 +192,7 @@ def gen_scn(r, k, forced=None):
             if v["periodic"] and r.random() < 0.3:
                 z += r.randint(-2, 2) * v["P"]
             zs.append(z)
-        if events and events[-1][0] in ("restart", "rebin"):
+        if events and events[-1][0] in ("restart", "rebin", "reload"):
             zs = last_zs         # a resumed run starts from the configuration at which the state was written
         last_zs = zs
         prev = [(wrap_exact(z, v["c"], v["P"]) if v["periodic"] else z) for z, v in zip(zs, vars_)]
@@ -147,6 +201,8 @@ def gen_scn(r, k, forced=None):
             events.append(("save",))
         if events and events[-1][0] in ("restart", "rebin"):
             boundary = False
+        if events and events[-1][0] == "reload":
+            boundary = True          # the step at which the state was written is computed again
         events.append(("step", boundary, zs))
     c["events"] = events
     return c
@@ -166,6 +222,9 @@ def steps_of(c):
         if e[0] in ("restart", "rebin"):
             run_start = it          # the fresh instance resumes at the step of the state
             first = True
+            continue
+        if e[0] == "reload":
+            run_start = it          # the same instance: relative steps restart, the next step is not a first step
             continue
         if e[0] != "step":
             continue
@@ -187,7 +246,7 @@ def atoms_of(c):
     out, a = [], 1
     for v in c["vars"]:
         out.append(a)
-        a += 1 if v["kind"] == 0 else 2
+        a += NATOMS[v["kind"]]
     return out, a - 1
 
 
@@ -210,6 +269,9 @@ def config_text(c, geom=None, rebin=False):
             if v["periodic"]:
                 L += ["    period %r" % v["P"], "    wrapAround %r" % v["c"]]
             L += ["  }", "}"]
+        elif v["kind"] == 3:
+            L += ["  orientation {", "    atoms { atomNumbers %d %d %d %d }" % tuple(first[d] + k for k in range(4)),
+                  "    refPositions " + " ".join("(%r, %r, %r)" % a for a in QREF), "  }", "}"]
         else:
             L += ["  %s {" % ("distanceVec" if v["kind"] == 1 else "distanceDir"),
                   "    group1 { atomNumbers %d }" % first[d], "    group2 { atomNumbers %d }" % (first[d] + 1), "  }", "}"]
@@ -233,8 +295,52 @@ def config_text(c, geom=None, rebin=False):
         L += ["  wellTempered on", "  biasTemperature %r" % c["bt"]]
     if c["stepzero"]:
         L.append("  stepZeroData on")
+    if c.get("eb"):
+        L += ["  ebMeta on", "  targetDistFile %s" % target_file_name(c), "  ebMetaEquilSteps %d" % c["eb"]["equil"]]
     L += ["}", "EOF", "show atomf 0 energy 0 af 1 bias 1"]
+    if c.get("eb"):
+        L.append("metatarget m")
     return L
+
+
+def target_file_name(c):
+    return "c05_target_%s.dat" % c["id"]
+
+
+def target_file_text(c):
+    """multicolumn grid file of the raw target distribution, on the boundaries of the configuration"""
+    vs = c["vars"]
+    L = ["# %d" % len(vs)]
+    for v in vs:
+        L.append("# %r %r %d %d" % (v["lower"], v["w"], v["nx"], 1 if v["gper"] else 0))
+    idx = [[]]
+    for v in vs:
+        idx = [i + [k] for i in idx for k in range(v["nx"])]
+    for a, ix in enumerate(idx):
+        if ix[-1] == 0:
+            L.append("")
+        L.append(" " + " ".join("%r" % (v["lower"] + v["w"] * (0.5 + k)) for v, k in zip(vs, ix)) + "  %r" % c["eb"]["raw"][a])
+    return "\n".join(L) + "\n"
+
+
+def target_processed(c):
+    """the target distribution as ebMeta uses it: small values raised to 1e-6 of the maximum, normalised to integral
+    1, multiplied by the effective volume exp(entropy) (init_ebmeta_params)"""
+    d = list(c["eb"]["raw"])
+    thr = max(d) * (1 / 1000000.0)
+    d = [max(t, thr) for t in d]
+    vol = 1.0
+    for v in c["vars"]:
+        vol *= v["w"]
+    I = vol * sum(d)
+    d = [t * (1.0 / I) for t in d]
+    S = vol * sum(-1.0 * t * math.log(t) for t in d if t > 0)
+    e = math.exp(S)
+    return [t * e for t in d]
+
+
+def scenario_files(c):
+    return {target_file_name(c): target_file_text(c)} if c.get("eb") else {}
 
 
 def scenario_text(c, dump=True):
@@ -244,12 +350,16 @@ def scenario_text(c, dump=True):
         L.append("setstep %d" % c["it0"])
     L += config_text(c)
     for d, v in enumerate(c["vars"]):
-        if v["kind"] != 0:
+        if v["kind"] in (1, 2):
             L.append("pos %d 0 0 0" % first[d])
     nstate = 0
     for e in c["events"]:
         if e[0] == "save":
             L.append("save text c05.state")
+            continue
+        if e[0] == "reload":
+            nstate += 1
+            L += ["save text c05l%d.state" % nstate, "load c05l%d.state" % nstate]
             continue
         if e[0] in ("restart", "rebin"):
             # the state is written, a fresh instance reads it (for "rebin": with new boundaries and rebinGrids on)
@@ -262,6 +372,9 @@ def scenario_text(c, dump=True):
         for d, z in enumerate(zs):
             if c["vars"][d]["kind"] == 0:
                 L.append("pos %d 0 0 %s" % (first[d], V.hexf(z)))
+            elif c["vars"][d]["kind"] == 3:
+                for k in range(4):
+                    L.append("pos %d %s %s %s" % (first[d] + k, V.hexf(z[3 * k]), V.hexf(z[3 * k + 1]), V.hexf(z[3 * k + 2])))
             else:
                 L.append("pos %d %s %s %s" % (first[d] + 1, V.hexf(z[0]), V.hexf(z[1]), V.hexf(z[2])))
         if boundary:
@@ -282,6 +395,11 @@ def model_case(c, xs, dump=True):
     p += [V.hexf(c["W"]), V.hexf(c["hw"]), str(c["freq"]), str(c["gfreq"]), "1" if c["use_grids"] else "0",
           "1" if (c["keep"] and c["use_grids"]) else "0", "1" if c["wt"] else "0", V.hexf(c["bt"]), V.hexf(KB),
           "1" if c["stepzero"] else "0", "1" if dump else "0"]
+    if c.get("eb"):
+        tp = target_processed(c)
+        p += ["1", str(c["eb"]["equil"]), str(len(tp))] + [V.hexf(t) for t in tp]
+    else:
+        p += ["0", "0", "0"]
     st = steps_of(c)
     p.append(str(len(c["events"])))
     n = 0
@@ -291,6 +409,9 @@ def model_case(c, xs, dump=True):
             continue
         if e[0] == "restart":
             p.append("R")
+            continue
+        if e[0] == "reload":
+            p.append("L")
             continue
         if e[0] == "rebin":
             p.append("B")
@@ -340,13 +461,35 @@ def parse_traj(c, text):
     return out if "TRAJEND" in text else None
 
 
+def last_traj_segment(c, text):
+    """the records of the last `metatraj` dump (the instance alive at the end)"""
+    segs = text.split("TRAJEND")
+    if len(segs) < 2:
+        return None
+    seg = segs[-2]
+    if "TRAJEND" in seg:
+        seg = seg[seg.rindex("TRAJEND"):]
+    r = parse_traj(c, seg + "TRAJEND")
+    # a dump begins after the previous TRAJEND: keep only the TRAJ lines that follow the last non-TRAJ output
+    lines = seg.split("\n")
+    k = len(lines)
+    while k > 0 and (lines[k - 1].startswith("TRAJ") or not lines[k - 1].strip()):
+        k -= 1
+    return parse_traj(c, "\n".join(lines[k:]) + "\nTRAJEND")
+
+
 def parse_impl(c, text):
     nd = len(c["vars"])
     steps = []
     cur = None
+    target = []
+    c["_target_dump"] = target
     for line in text.split("\n"):
         w = line.split()
         if not w or w[0] in ("TRAJ", "TRAJEND"):
+            continue
+        if w[0] == "TARGET":
+            target.append([fh(t) for t in w[1:]])
             continue
         if w[0] == "STEP":
             cur = {"it": int(w[1]), "err": w[2] if len(w) > 2 else "", "cv": [], "af": [], "hills": [], "off": [],
@@ -389,6 +532,11 @@ def parse_impl(c, text):
 def parse_model(c, line):
     nd = len(c["vars"])
     steps = []
+    if " || T" in line:
+        line, tr = line.split(" || T", 1)
+        c["_model_traj"] = parse_hills(c, tr.split())
+    else:
+        c["_model_traj"] = None
     for rec in line.split(" | "):
         fs = [f.split() for f in rec.split(" ; ")]
         if not fs or not fs[0] or fs[0][0] != "S":
@@ -430,7 +578,7 @@ def hills_close(a, b, exact=True):
 
 
 def has_restart(c):
-    return any(e[0] in ("restart", "rebin") for e in c["events"])
+    return any(e[0] in ("restart", "rebin", "reload") for e in c["events"])
 
 
 def vec_close(a, b):
@@ -499,6 +647,10 @@ def dist2(v, x, ctr):
         return pdiff(v, x[0], ctr[0]) ** 2
     if v["kind"] == 1:
         return sum((a - b) ** 2 for a, b in zip(x, ctr))
+    if v["kind"] == 3:
+        co = sum(a * b for a, b in zip(x, ctr))
+        om = math.acos(max(-1.0, min(1.0, co)))
+        return om * om if co > 0.0 else (math.pi - om) ** 2
     th = math.acos(clampdot(x, ctr)[1])
     return th * th
 
@@ -509,6 +661,15 @@ def dgrad(v, x, ctr):
         return [2 * pdiff(v, x[0], ctr[0])]
     if v["kind"] == 1:
         return [2 * (a - b) for a, b in zip(x, ctr)]
+    if v["kind"] == 3:
+        co = sum(a * b for a, b in zip(x, ctr))
+        om = math.acos(max(-1.0, min(1.0, co)))
+        so = math.sin(om)
+        if abs(so) < 1e-14:
+            return [0.0] * 4
+        g = [-so * b + co * (a - co * b) / so for a, b in zip(x, ctr)]
+        f = 2.0 * om if co > 0.0 else -2.0 * (math.pi - om)
+        return [f * t for t in g]
     co, cc = clampdot(x, ctr)
     s2 = 1.0 - co * co
     if co > 0.0 and s2 < 1e-28:
@@ -576,7 +737,7 @@ def oracle(c, impl, traj):
     st = steps_of(c)
     tab, pend = [], []
     facts = {"deposits": 0, "projections": 0, "outside_steps": 0, "expansions": 0, "saves": 0, "wt_outside": 0,
-             "wrapped_steps": 0, "restarts": 0, "rebins": 0, "antipodal_steps": 0}
+             "wrapped_steps": 0, "restarts": 0, "rebins": 0, "antipodal_steps": 0, "ebmeta_deposits": 0, "reloads": 0, "rebins_from_grids": 0}
     restarted = False
     off_at_restart = []
     lingering = False      # after a restart without keepHills the hills near the edges stay listed until the next projection
@@ -594,8 +755,10 @@ def oracle(c, impl, traj):
                 tab += pend
                 pend = []
             continue
-        if e[0] in ("restart", "rebin"):
+        if e[0] in ("restart", "rebin", "reload"):
             facts["restarts"] += 1
+            if e[0] == "reload":
+                facts["reloads"] += 1
             restarted = True
             off_at_restart = list(impl[n]["off"]) if n >= 0 else []
             if c["use_grids"]:
@@ -606,6 +769,8 @@ def oracle(c, impl, traj):
                 lingering = not c["keep"]
                 if e[0] == "rebin":
                     facts["rebins"] += 1
+                    if not c["keep"]:
+                        facts["rebins_from_grids"] += 1
                     prev_geom = [tuple(g) for g in e[1]]
             continue
         n += 1
@@ -641,9 +806,25 @@ def oracle(c, impl, traj):
             wgt = c["W"]
             pend_before = list(pend)
             ins = True
+            ebf = 1.0
+            if c.get("eb"):
+                tb = []
+                for v, xv in zip(c["vars"], x):
+                    b = ffloor((Fr(xv[0]) - Fr(v["lower"])) / Fr(v["w"]))
+                    b = b % v["nx"] if v["gper"] else min(max(b, 0), v["nx"] - 1)
+                    tb.append(b)
+                a = 0
+                for v, b in zip(c["vars"], tb):
+                    a = a * v["nx"] + b
+                ebf = 1.0 / target_processed(c)[a]
+                if it < c["eb"]["equil"]:
+                    lam = (c["eb"]["equil"] - it) / float(c["eb"]["equil"])
+                    ebf = lam + (1 - lam) * ebf
+                facts["ebmeta_deposits"] += 1
+                wgt = c["W"] * ebf
             if c["wt"]:
                 vhere, _, ins = spec_bias(c, geom, x, tab, pend)
-                wgt = c["W"] * math.exp(-vhere / (c["bt"] * KB))
+                wgt = c["W"] * (ebf * math.exp(-vhere / (c["bt"] * KB)))
                 if c["use_grids"] and not ins:
                     facts["wt_outside"] += 1
             h = (it, wgt, [list(t) for t in x])
@@ -654,7 +835,15 @@ def oracle(c, impl, traj):
             seen = [traj.pop(0)]
             if not close(seen[-1][1], wgt):
                 misaligned = any(v["gper"] and not (g[1] <= xv[0] < g[2]) for v, g, xv in zip(c["vars"], geom, x))
-                if c["wt"] and c["use_grids"] and misaligned:
+                eb_outside = bool(c.get("eb")) and any(not (0 <= ffloor((Fr(xv[0]) - Fr(v["lower"])) / Fr(v["w"])) < v["nx"])
+                                                        for v, xv in zip(c["vars"], x))
+                if c.get("eb") and eb_outside:
+                    sig = "ebmeta:target-read-out-of-range"
+                elif c.get("eb") and seen[-1][1] != seen[-1][1]:
+                    sig = "ebmeta:nan-weight-in-ramp"
+                elif c.get("eb") and not c["wt"]:
+                    sig = "ebmeta:hill-weight"
+                elif c["wt"] and c["use_grids"] and misaligned:
                     sig = "periodic:grid-not-aligned-with-wrapping-interval"
                 elif c["wt"] and c["use_grids"] and not ins:
                     sig = "wt:deposit-outside-grid-reads-out-of-range"
@@ -744,7 +933,7 @@ def _var(lower=0.0, nx=8, w=1.0, sigma=1.0, expand=False, **kw):
 
 def _cfg(cid, vars_, events, **kw):
     c = {"id": cid, "vars": vars_, "use_grids": True, "sig_mode": False, "hw": 2.0, "W": 1.0, "freq": 1,
-         "keep": False, "wt": False, "bt": 300.0, "stepzero": False, "gfreq_explicit": False, "gfreq": 1, "it0": 0,
+         "keep": False, "wt": False, "bt": 300.0, "stepzero": False, "gfreq_explicit": False, "gfreq": 1, "it0": 0, "eb": None,
          "events": [("step", False, list(z)) if not isinstance(z, (str, tuple)) else ((z,) if isinstance(z, str) else z) for z in events]}
     c.update(kw)
     if not c["gfreq_explicit"]:
@@ -776,10 +965,28 @@ def witnesses():
         _cfg("w_restart_nogrid", [_var()], [[0.5], [0.5], [0.5], [-0.25], "restart", [-0.25], [0.5]], use_grids=False),
         _cfg("w_restart_grid", [_var()], [[0.5], [0.5], [0.5], [-0.25], "restart", [-0.25], [0.5]]),
         _cfg("w_restart_twice", [_var()], [[0.5], [0.5], "restart", [0.5], [-0.25], "restart", [-0.25], [0.5]], keep=True),
+        # the state read back by the same instance (pre-existing hills pruned), with and without grids
+        _cfg("w_reload_model", [_var()], [[0.5], [0.5], [0.5], [-0.25], "reload", ("step", True, [-0.25]), [0.5], [-0.5]]),
+        _cfg("w_reload_model_nogrid", [_var()], [[0.5], [0.5], [-0.25], "reload", ("step", True, [-0.25]), [0.5]], use_grids=False),
+        # rebinGrids without keepHills (map_grid) onto the expanded grid extended by whole bins: expandBoundaries, hillWidth 2:
+        # the grid [0,8) becomes [-4,11) at the first step; new boundaries [-6,13)
+        _cfg("w_rebin_from_grids", [_var(expand=True)], [[3.5], [3.5], [4.5], ("rebin", [(19, -6.0, 13.0)]), [4.5], [-5.5], [12.25]]),
         # restart with rebinGrids from the kept hills onto a shifted, larger grid
         _cfg("w_rebin", [_var()], [[0.5], [1.5], [3.25], ("rebin", [(12, -2.5, 9.5)]), [3.25], [-0.75], [9.75]], keep=True),
+        # ebMeta: ramp during 3 steps, hills inside, beyond both boundaries (closest edge bin), with well-tempered
+        _cfg("w_ebmeta", [_var()], [[3.5], [3.5], [0.5], [7.5], [3.5], [-0.25], [8.5], [2.5]],
+             eb={"raw": [1.0, 2.0, 4.0, 8.0, 8.0, 4.0, 2.0, 0.0], "equil": 3}),
+        _cfg("w_ebmeta_wt", [_var()], [[3.5], [3.5], [3.5], [-0.25], [3.25]], wt=True,
+             eb={"raw": [1.0, 2.0, 4.0, 8.0, 8.0, 4.0, 2.0, 1.0], "equil": 0}),
+        # ebMeta with the default ebMetaEquilSteps 0 and a hill at step 0 (stepZeroData)
+        _cfg("w_ebmeta_step0", [_var()], [[3.5], [3.5], [2.5]], stepzero=True,
+             eb={"raw": [1.0, 2.0, 4.0, 8.0, 8.0, 4.0, 2.0, 1.0], "equil": 0}),
         # vector variables without grids
         _cfg("w_vec3", [_var(kind=1)], [[[1.0, 0.0, 0.5]], [[1.0, 0.25, 0.5]], [[0.5, 0.25, 0.5]], [[0.5, 0.5, 0.0]]], use_grids=False, wt=True),
+        _cfg("w_quat", [_var(kind=3)], [[[1.0, 0.0, 0.0, 0.0, 1.0, 0.0, 0.0, 0.0, 1.0, -1.0, -1.0, -1.0]],
+                                        [[1.0, 0.125, 0.0, 0.0, 1.0, 0.0, 0.0, 0.0, 1.0, -1.0, -1.0, -1.0]],
+                                        [[0.0, 1.0, 0.0, -1.0, 0.0, 0.0, 0.0, 0.0, 1.0, 1.0, -1.0, -1.0]],
+                                        [[0.0, 1.0, 0.25, -1.0, 0.0, 0.0, 0.0, 0.0, 1.0, 1.0, -1.0, -1.0]]], use_grids=False, wt=True),
         _cfg("w_unit3", [_var(kind=2)], [[[1.0, 0.0, 0.5]], [[1.0, 0.25, 0.5]], [[0.5, 0.25, 0.5]], [[0.5, 0.5, 0.0]]], use_grids=False),
     ]
 
@@ -792,6 +999,8 @@ def run_scenarios(run, exe, model, cs, d, dump=True):
         sc = os.path.join(d, "s%s.scn" % c["id"])
         txt = scenario_text(c, dump)
         open(sc, "w").write(txt)
+        for fn, content in scenario_files(c).items():
+            open(os.path.join(d, fn), "w").write(content)
         rcv, o, ev = V.sh([exe, sc], cwd=d, timeout=120)
         os.remove(sc)
         try:
@@ -803,12 +1012,13 @@ def run_scenarios(run, exe, model, cs, d, dump=True):
         if impl and len(impl) == nst and all(len(s["cv"]) == len(c["vars"]) for s in impl):
             xs = [s["cv"] for s in impl]
         else:
-            xs = [[[expected_scalar(v, z)] if v["kind"] == 0 else list(z) for v, z in zip(c["vars"], st[3])] for st in steps_of(c)]
+            xs = [[[expected_scalar(v, z)] if v["kind"] == 0 else list(z)[:NCOMP[v["kind"]]] for v, z in zip(c["vars"], st[3])] for st in steps_of(c)]
         mlines.append(model_case(c, xs, dump))
         try:
             traj = parse_traj(c, o)
         except (ValueError, IndexError):
             traj = None
+        c["_last_traj"] = last_traj_segment(c, o) if traj is not None else None
         res.append([c, impl, None, txt, rcv, o, traj, mlines[-1]])
     rc, mout, e = V.run_lines(model, mlines, timeout=900)
     for k, rec in enumerate(res):
@@ -822,7 +1032,8 @@ def run_scenarios(run, exe, model, cs, d, dump=True):
 def check_one(run, c, impl, mo, txt, rcv, o, traj, mline):
     nd = len(c["vars"])
     key = "s%s" % c["id"]
-    replay_d = {"kind": "scenario", "scenario": txt, "model_case": mline, "config": {k: v for k, v in c.items() if k != "events"}}
+    replay_d = {"kind": "scenario", "scenario": txt, "model_case": mline, "files": scenario_files(c),
+                "config": {k: v for k, v in c.items() if k != "events" and not k.startswith("_")}}
     if impl is None:
         run.count(key, False)
         run.mismatch("config", {"scenario": txt}, o[-400:], "accepted")
@@ -845,8 +1056,9 @@ def check_one(run, c, impl, mo, txt, rcv, o, traj, mline):
     run.dist("expanding_vars", sum(1 for v in c["vars"] if v["expand"]))
     run.dist("vector_vars", sum(1 for v in c["vars"] if v["kind"] == 1))
     run.dist("unit_vector_vars", sum(1 for v in c["vars"] if v["kind"] == 2))
+    run.dist("quaternion_vars", sum(1 for v in c["vars"] if v["kind"] == 3))
     run.dist("steps", len(impl))
-    for kk in ("deposits", "projections", "outside_steps", "expansions", "saves", "wt_outside", "wrapped_steps", "restarts", "rebins", "antipodal_steps"):
+    for kk in ("deposits", "projections", "outside_steps", "expansions", "saves", "wt_outside", "wrapped_steps", "restarts", "rebins", "antipodal_steps", "ebmeta_deposits", "reloads", "rebins_from_grids"):
         run.dist(kk, facts[kk])
     if bad:
         sig, text, n = bad
@@ -856,6 +1068,16 @@ def check_one(run, c, impl, mo, txt, rcv, o, traj, mline):
     if mo is None or len(mo) != len(impl):
         run.mismatch("model-output", {"model_case": mline}, len(impl), None if mo is None else len(mo))
         return
+    if c.get("eb"):
+        tp = target_processed(c)
+        dumps = c.get("_target_dump") or []
+        if not dumps or any(not vec_close(t, tp) for t in dumps):
+            run.violation("ebmeta:target-normalisation", "target distribution as used by ebMeta %s, expected (raw values raised to 1e-6 "
+                          "of the maximum, normalised, times exp(entropy)) %s" % (dumps[:1], tp), replay_d)
+    mt, it_ = c.get("_model_traj"), c.get("_last_traj")
+    if mt is not None and it_ is not None:
+        if len(mt) != len(it_) or any(a[0] != b[0] or not close(a[1], b[1], 1e-9) or not centres_same(a[2], b[2], False) for a, b in zip(mt, it_)):
+            run.mismatch("hills_trajectory", dict(replay_d), [(h[0], h[1]) for h in it_], [(h[0], h[1]) for h in mt])
     for n, (im, ms) in enumerate(zip(impl, mo)):
         diff = compare_step(c, im, ms)
         if diff:
@@ -954,9 +1176,11 @@ def replay(path):
         model = V.extract_model("C05", EXTRACT, DRIVER, ["ocaml/fops.ml"])
         d = V.scratch("C05r")
         open(os.path.join(d, "r.scn"), "w").write(rp["scenario"])
+        for fn, content in rp.get("files", {}).items():
+            open(os.path.join(d, fn), "w").write(content)
         print("---- implementation")
         print(V.sh([exe, "r.scn"], cwd=d)[1])
         if "model_case" in rp:
             print("---- model")
-            print("\n".join(V.run_lines(model, [rp["model_case"]])[1][0].split(" | ")))
+            print("\n".join(V.run_lines(model, [rp["model_case"]])[1][0].replace(" || ", " | ").split(" | ")))
     return 0
